@@ -638,6 +638,7 @@ def pairs(draw):
         kind = draw(hs.sampled_from(['set', 'set', 'set', 'unset', 'deep',
                                      'respell', 'respell', 'toggle-eol',
                                      'toggle-eol', 'nested-order',
+                                     'json-twin',
                                      'reorder-keys', 'reorder-keys',
                                      'add-change', 'del-change',
                                      'swap-changes', 'add-file', 'del-file',
@@ -658,6 +659,27 @@ def pairs(draw):
         if kind == 'set':
             name = draw(hs.sampled_from(names))
             attrs[name] = draw(hs.sampled_from(PERTURB_VALUES[name]))
+        elif kind == 'json-twin':
+            # metadata that would be written as the same JSON text but is a
+            # different Python value (a tuple for a list, 1 for "1" as a
+            # key): different content, so different trees
+            base = {'z': [1, 2], 'n': {'1': 'v'}}
+            variant = draw(hs.sampled_from([
+                {'z': {trees.AS_TUPLE: [1, 2]}, 'n': {'1': 'v'}},
+                {'z': [1, 2], 'n': {trees.INT_KEYS: {'1': 'v'}}}]))
+            twin = t['main'] if label == 'main' else None
+
+            for cc, uc in zip(t['changes'], changes):
+                if uc['attrs'] is attrs:
+                    twin = cc['attrs']
+
+                for ff, uf in zip(cc['files'], uc['files']):
+                    if uf is attrs:
+                        twin = ff
+
+            if twin is not None:
+                twin['meta'] = copy.deepcopy(base)
+                attrs['meta'] = variant
         elif kind == 'nested-order':
             # the same metadata, every object (also those inside lists,
             # at any depth) filled in the opposite order: equal content
